@@ -696,7 +696,7 @@ def pretty_print_cell(i, cell, prefix="", force_header=False, config=DefaultConf
             "collapsed", "autoscroll", "deletable", "format", "name", "tags",
         }
         pretty_print_metadata(
-            cell.metadata,
+            metadata,
             known_cell_metadata_keys,
             key_prefix,
             config)
